@@ -36,9 +36,12 @@ theorem finv_d {s s' : St} {a : DAct} (hm : MInv s) (_ht : TInv s) (h : FInv s) 
     FInv s' := by
   have ⟨h1, h2, h3, h4, h5, h6, h7, h8, h9, h10⟩ := h
   cases a with
+  | createG => rw [d_wd_frame (Or.inl rfl) hs]; exact ⟨h1, h2, h3, h4, h5, h6, h7, h8, h9, h10⟩
+  | cancelG => rw [d_wd_frame (Or.inr (Or.inl rfl)) hs]; exact ⟨h1, h2, h3, h4, h5, h6, h7, h8, h9, h10⟩
+  | joinG => rw [d_wd_frame (Or.inr (Or.inr rfl)) hs]; exact ⟨h1, h2, h3, h4, h5, h6, h7, h8, h9, h10⟩
   | createS =>
     simp only [dStep] at hs
-    split at hs <;> simp at hs; subst hs
+    split at hs <;> (try split at hs) <;> simp at hs; subst hs
     exact ⟨h1, h2, h3, h4, h5, h6, h7, h8, h9, h10⟩
   | lock =>
     simp only [dStep] at hs
